@@ -1,10 +1,12 @@
 """C12 -- client cache and callbacks mirror the node: implementation driver, case encoder, direct oracle.
 
-Two kinds of cases:
+Three kinds of cases:
   'msgs': a generated description + a history of {received line, register, unregister} run through the real
           SecopClient receive loop (real __rxthread called synchronously on a scripted connection object)
   'e2e' : values written / read through a real SecopClient <-> TCPServer <-> Dispatcher <-> Module with a
           recording fake driver on loopback, see harness/c12_e2e.py
+  'conc': callers of setParameter / readParameter / getParameter concurrent with the real receive and transmit threads
+          under the deterministic scheduler harness/dsched.py with a scripted peer, see harness/c12_conc.py
 """
 import base64
 import json
@@ -18,10 +20,10 @@ ID = 'C12'
 MODEL_TARGETS = ['theories/C12/Run.vo']
 PROOF_TARGETS = ['theories/C12/Properties.vo']
 PROPERTIES_V = 'theories/C12/Properties.v'
-IMPORTS = 'Require Import FV.Gen.C12 FV.C12.Model FV.C12.Run.'
+IMPORTS = 'Require Import FV.Gen.C12 FV.C12.Model FV.C12.ConcModel FV.C12.Run.'
 CASE_TYPE = 'case'
 CHECK = 'check_case'
-SHARD_SIZE = 250
+SHARD_SIZE = 300
 RULE = ('msgs: random descriptions (1-3 modules incl. one named "None" sometimes, parameters of every SECoP datatype '
         'with nested array/tuple/struct, commands, custom "_x" names, predefined names) x histories of 3-14 ops '
         '{received line | register | unregister} where lines are update/reply/changed/error_update/error_read/other '
@@ -32,8 +34,15 @@ RULE = ('msgs: random descriptions (1-3 modules incl. one named "None" sometimes
         'raising an exception at scripted invocation numbers, plus all op sequences of length <= 2 (thorough: 3) over an '
         '11-letter alphabet on a fixed description; e2e: every datatype x valid values written through '
         'SecopClient.setParameter / read through readParameter against a real node over loopback TCP (the Proxy '
-        'node variant of the design is not implemented).  Non-trivial: at least one accepted message (msgs) / one completed write (e2e); '
-        'distinct = distinct (description, ops, behaviours) / (datainfo, value, driver result)')
+        'node variant of the design is not implemented); conc: one real SecopClient (rx/tx threads, fake AsynConn) with 1-3 '
+        'caller threads each doing 1-2 calls of setParameter / readParameter / getParameter (mostly on one parameter), '
+        'recording callbacks at node/module/parameter level, a peer script (answer the j-th outstanding request with a value '
+        'or an error report, unsolicited update / error_update lines for the same and other parameters, junk lines; '
+        'timestamps relative to the virtual clock) and a thread schedule at synchronisation-point granularity incl. the '
+        'entry of updateValue (seeded random, sticky random, every single preemption point of four fixed scenarios, pairs); '
+        'every run is a real multi-thread execution, replayable from its decision list.  Non-trivial: at least one '
+        'accepted message (msgs) / one completed write (e2e) / one returned call (conc); '
+        'distinct = distinct (description, ops, behaviours) / (datainfo, value, driver result) / (callers, peer, executed steps)')
 ASSUMPTIONS = [
     'module names and accessible names of a description contain no colon and give distinct internal names per module '
     '(a description with "_x" and "x" in one module makes two wire parameters share one cache key: outside the property)',
@@ -43,7 +52,15 @@ ASSUMPTIONS = [
     'acceptance the specification leaves open (bool for a number, wrong tuple length, ...) are not generated',
     'json.loads and the python re engine are runtime: the JSON structure and the groups of FRAPPY_ERROR.match are data of the case',
     'time.time() of frappy.client is a scripted clock with values k/1024 s; finite timestamps in messages are k/1024 s',
-    'the request matching / unhandledMessage part of the receive loop belongs to C11 and is not observed here',
+    'the request matching / unhandledMessage part of the receive loop belongs to C11 and is not observed in msgs cases',
+    'conc: threads are interleaved at synchronisation points (Queue put/get/empty, Event set/wait, Lock acquire, '
+    'connection send/recv) and at the entry of SecopClient.updateValue (added by the harness subclass); preemption '
+    'between two bytecodes of a region without such a point is not explored',
+    'conc: the peer answers only requests it received, each once, with the reply action of the SECoP table and the '
+    'identifier of the request, a payload that is a valid wire value of the datatype and an object as qualifiers (a '
+    'reply whose import fails releases nobody: time-outs belong to C11); unsolicited lines are update / error_update '
+    'with valid payloads for described parameters, or junk that fails before updateValue is called; callbacks return '
+    'normally and do not block; no connection loss, no time-outs (every request is answered)',
 ]
 
 UPDATE_ACTIONS = {'update': 'AUpdate', 'reply': 'AReply', 'changed': 'AChanged',
@@ -638,6 +655,9 @@ def run_msgs(case):
 def run_case(case):
     if case['kind'] == 'msgs':
         return run_msgs(case)
+    if case['kind'] == 'conc':
+        from harness import c12_conc
+        return c12_conc.run_conc(case)
     from harness import c12_e2e
     return c12_e2e.run_e2e(case)
 
@@ -774,11 +794,16 @@ def encode_msgs(case, obs):
 def encode(case, obs):
     if case['kind'] == 'msgs':
         return '(' + encode_msgs(case, obs) + ')'
+    if case['kind'] == 'conc':
+        from harness import c12_conc
+        return '(' + c12_conc.encode_conc(case, obs) + ')'
     from harness import c12_e2e
     return '(' + c12_e2e.encode_e2e(case, obs) + ')'
 
 
 def model_result_term(case, obs):
+    if case['kind'] == 'conc':
+        return f'(model_conc {encode(case, obs)}, model_result {encode(case, obs)})'
     return f'model_result {encode(case, obs)}'
 
 
@@ -884,6 +909,9 @@ def oracle_msgs(case, obs):
 def oracle(case, obs):
     if case['kind'] == 'msgs':
         return oracle_msgs(case, obs)
+    if case['kind'] == 'conc':
+        from harness import c12_conc
+        return c12_conc.oracle_conc(case, obs)
     from harness import c12_e2e
     return c12_e2e.oracle_e2e(case, obs)
 
@@ -910,7 +938,17 @@ FINDING_CLASSIFIERS = {
     # f'{None}:value' and landed in the module literally named "None"
     'missing_ident_module_None': lambda case, obs, f: f['class'] == 'unaddressed-accepted'
     and f.get('module') == 'None' and _has_none_module(case),
+    # (fixed in /repo by 276f60f) readParameter's fallback `self.updateValue(module, parameter, None, time.time(), e)` run
+    # for an error that DID come from a SECoP message, because a later line for the same parameter replaced the cache entry
+    # before the released caller ran: only failures that are nothing but the effect of such a write (c12_conc.fallback_writes)
+    'read_error_fallback_after_later_update': lambda case, obs, f: case['kind'] == 'conc'
+    and _conc().is_read_error_fallback(case, obs, f),
 }
+
+
+def _conc():
+    from harness import c12_conc
+    return c12_conc
 
 
 def nontrivial_key(case, obs):
@@ -918,6 +956,8 @@ def nontrivial_key(case, obs):
         if not obs['cache'] or obs['excs']:
             return None
         return json.dumps([case['desc'], case['dts'], case['ops'], case['beh']], sort_keys=True)
+    if case['kind'] == 'conc':
+        return _conc().nontrivial_key(case, obs)
     from harness import c12_e2e
     return c12_e2e.nontrivial_key(case, obs)
 
@@ -942,6 +982,8 @@ def outcome_labels(case, obs):
                 labs.add('beh:' + b)
         for _, _, e in obs['cache']:
             labs.add('cache:' + ('error' if e[2] else e[0][0]))
+    elif case['kind'] == 'conc':
+        labs.update(_conc().outcome_labels(case, obs))
     else:
         from harness import c12_e2e
         labs.update(c12_e2e.outcome_labels(case, obs))
@@ -952,6 +994,9 @@ def sample_repr(case, obs):
     if case['kind'] == 'msgs':
         return {'desc': case['desc'], 'ops': case['ops'][:8], 'beh': case['beh'], 'final_cache': obs['cache'][:4],
                 'invocations': obs['invs'][:6]}
+    if case['kind'] == 'conc':
+        return {'case': case, 'lines': obs['lines'][:6], 'returns': obs['returns'][:4],
+                'steps': [f'{t}:{lab}' for t, lab, _ in obs['trace']][:60]}
     return {'case': case, 'observed': obs}
 
 
@@ -1147,7 +1192,7 @@ def exhaustive_cases(depth, scripts):
 
 def gen_cases(seed, tier):
     rng = random.Random(seed * 1000003 + 12)
-    n = {'quick': 3600, 'thorough': 30000, 'search': 12000}[tier]
+    n = {'quick': 3000, 'thorough': 30000, 'search': 12000}[tier]
     cases = [gen_msgs_case(rng) for _ in range(n)]
     if tier == 'quick':
         for d in (1, 2):
@@ -1156,7 +1201,19 @@ def gen_cases(seed, tier):
         for d in (1, 2, 3):
             cases.extend(exhaustive_cases(d, [[], [[0, 'U']], [[1, 'E']], [[0, 'E'], [2, 'U']]]))
     from harness import c12_e2e
-    cases.extend(c12_e2e.gen_e2e_cases(rng, tier))
+    e2e = c12_e2e.gen_e2e_cases(rng, tier)
+    rng2 = random.Random(seed * 1000003 + 1212)       # own stream: the cases above stay what they were
+    cases.extend(_conc().gen_conc_cases(rng2, tier))
+    # the end-to-end cases (real sockets, ~0.4 s each) are spread over the list so that the worker pool (contiguous
+    # chunks) shares them
+    if e2e:
+        stride = max(1, len(cases) // len(e2e))
+        out = []
+        for i, c in enumerate(cases):
+            if i % stride == 0 and e2e:
+                out.append(e2e.pop())
+            out.append(c)
+        cases = out + e2e
     return cases
 
 
@@ -1166,6 +1223,9 @@ def search_cases(seed, mismatching):
 
 
 def shrink(case):
+    if case['kind'] == 'conc':
+        yield from _conc().shrink(case)
+        return
     if case['kind'] != 'msgs':
         return
     ops = case['ops']
